@@ -55,6 +55,30 @@ Proof.
   unfold links_of in Hl. vm_compute in Hl. discriminate.
 Qed.
 
+(** deliver; UID COPY 1 INBOX twice; expunge UID 2: uid_next = 2 is free, 3 is
+    taken.  <u>,<u>: the first attempt stores UID 2, the second fails; both
+    positions are answered 550 although one message was added *)
+Definition h_gap : list wop :=
+  [WLmtp INBOX [U1] p_plain clk0; WImap KU1 100 (OUidCopy 1 [UOne 1] INBOX);
+   WImap KU1 100 (OUidCopy 1 [UOne 1] INBOX);
+   WImap KU1 100 (OUidStore 1 [UOne 2] SAdd [S_ "\Deleted"]); WImap KU1 100 (OExpunge 1)].
+
+Lemma refuted_dup_rejected_but_stored :
+  exists h folder rs p clk,
+    classify (wrun h (w0 [])) folder rs p clk = Some CDupLastResult /\
+    snd (fst (lmtp_data (wrun h (w0 [])) folder rs p clk)) = [R550; R550] /\
+    ~ spec_C01 (wrun h (w0 [])) folder rs p clk.
+Proof.
+  exists h_gap, INBOX, [U1; U1], p_plain, clk0. split; [vm_compute; reflexivity|].
+  split; [vm_compute; reflexivity|].
+  unfold spec_C01.
+  remember (lmtp_data (wrun h_gap (w0 [])) INBOX [U1; U1] p_plain clk0) as res eqn:E.
+  vm_compute in E. subst res.
+  intros (_ & _ & _ & H). inversion H as [|c a rc ra Hp _]; subst. clear H.
+  unfold position_ok in Hp. simpl in Hp. specialize (Hp KU1).
+  unfold links_of in Hp. vm_compute in Hp. discriminate.
+Qed.
+
 (** the same history, one acceptable recipient: refused with 550 *)
 Lemma refuted_stale_uidnext_refusal :
   exists h folder rs p clk,
